@@ -47,7 +47,7 @@ Example C02_example :
   let p1 := {| p_src := "world"; p_dst := "alice"; p_asset := "USD"; p_amt := 18446744073709551617 |} in
   let p2 := {| p_src := "alice"; p_dst := "bob"; p_asset := "USD"; p_amt := 7 |} in
   let h := [(10, {| o_in := ICreate [p1; p2] None "" [] [] false; o_ik := ""; o_dry := false |});
-            (20, {| o_in := IRevert 1 false false; o_ik := ""; o_dry := false |})] in
+            (20, {| o_in := IRevert 1 false false []; o_ik := ""; o_dry := false |})] in
   vget (s_vols (run f h)) ("alice", "USD") = (18446744073709551617 + 7, 7 + 18446744073709551617)
   /\ List.length (s_txs (run f h)) = 2%nat.
 Proof. vm_compute. split; reflexivity. Qed.
